@@ -109,7 +109,11 @@ func (r *wrapRead) GetLatest() ([]byte, error) {
 	if r.w.ctl.failing("g") {
 		return nil, errInjected
 	}
-	return r.inner.GetLatest()
+	b, err := r.inner.GetLatest()
+	if r.w.ctl.gate != nil {
+		r.w.ctl.gate(r.w.tid(), "g'") // between the read and whatever is done with its result
+	}
+	return b, err
 }
 
 type wrapWrite struct {
@@ -125,7 +129,11 @@ func (x *wrapWrite) GetLatest() ([]byte, error) {
 	if x.w.ctl.failing("R") {
 		return nil, errInjected
 	}
-	return x.inner.GetLatest()
+	b, err := x.inner.GetLatest()
+	if x.w.ctl.gate != nil {
+		x.w.ctl.gate(x.w.tid(), "G'")
+	}
+	return b, err
 }
 func (x *wrapWrite) Set(c []byte) error {
 	if x.w.ctl.gate != nil {
